@@ -153,8 +153,8 @@ func TestMakeKnown(t *testing.T) {
 		"C11/panic@/zcode.(*Iter).Next<-/vng.(*PrimitiveBuilder).ReadBytes":              byteMuts("data"),
 		"C11/panic@/vng.(*dynamicBuilder).Read":                                          byteMuts("data"),
 		"C11/panic@/zson.parseStringBytes":                                               lit("zson", []byte(`"\ud800"`), false, ""),
-		"C11/alloc/json/many-small":                                                      lit("json", jsonDeep(1000, 27), false, "named"),
-		"C11/alloc/zson/many-small":                                                      lit("zson", jsonDeep(1000, 27), false, "named"),
+		"C11/alloc/json/many-small":                                                      lit("json", jsonDeep(1000, 40), false, "named"),
+		"C11/alloc/zson/many-small":                                                      lit("zson", jsonDeep(1000, 40), false, "named"),
 		"C11/alloc/zng/many-small":                                                       lit("zng", zngChains(300, 46), false, "named"),
 		"C11/compile/panic@/compiler/parser.(*current).on*[grammar-action]":              {{Case{Kind: "query", Query: "sort -r -r"}, ""}},
 	}
